@@ -243,6 +243,56 @@ Proof. intros H. unfold neg_to_nan. destruct (Z.eqb_spec z (-1)); congruence. Qe
 Lemma keep_int_all z : keep_int z = Some (inject_Z z).
 Proof. reflexivity. Qed.
 
+(* ------------------------------------------------------------------ float32 round trip of category codes *)
+Lemma f32_exact z : (Z.abs z <= 2 ^ 24)%Z -> f32_of_Z z = z.
+Proof.
+  intros H. unfold f32_of_Z.
+  destruct (Z.eq_dec (Z.abs z) (2 ^ 24)) as [E|N].
+  - destruct (Z.abs_eq_or_opp z) as [A|A]; rewrite A in E.
+    + subst z. vm_compute. reflexivity.
+    + assert (z = (- 2 ^ 24)%Z) by lia. subst z. vm_compute. reflexivity.
+  - destruct (Z.eq_dec (Z.abs z) 0) as [Z0|NZ].
+    + rewrite Z0. reflexivity.
+    + assert (L : (Z.log2 (Z.abs z) < 24)%Z) by (apply Z.log2_lt_pow2; lia).
+      destruct (Z.leb_spec (Z.log2 (Z.abs z) - 23) 0); [reflexivity | lia].
+Qed.
+
+Lemma existsb_false_forall {A} (f : A -> bool) l : existsb f l = false -> forall x, In x l -> f x = false.
+Proof.
+  intros H x I. destruct (f x) eqn:E; auto.
+  assert (existsb f l = true) by (apply existsb_exists; eauto). congruence.
+Qed.
+
+Lemma cat_block_f32_exact f32 f64 rows :
+  (forall r z, In r rows -> In z r -> (Z.abs z <= 2 ^ 24)%Z) ->
+  cat_block_f32 f32 f64 rows = map (map neg_to_nan) rows.
+Proof.
+  intros H. unfold cat_block_f32.
+  apply map_ext_in. intros r Ir. apply map_ext_in. intros z Iz.
+  pose proof (f32_exact z (H r z Ir Iz)) as E.
+  unfold neg_to_nan.
+  destruct (existsb (existsb (Z.eqb (-1))) rows) eqn:M; simpl.
+  - now rewrite E.
+  - assert (Z.eqb (-1) z = false).
+    { pose proof (existsb_false_forall _ _ M r Ir) as X. apply (existsb_false_forall _ _ X z Iz). }
+    rewrite Z.eqb_sym, H0. destruct f64; [reflexivity|]. destruct f32; [now rewrite E | reflexivity].
+Qed.
+
+Lemma to_xgboost_input_gen_neg tf : to_xgboost_input tf = to_xgboost_input_gen (map (map neg_to_nan)) tf.
+Proof. reflexivity. Qed.
+
+(* bounded exactness: with every category code at most 2^24 in magnitude, the float32
+   casts of the XGBoost adapter change nothing *)
+Theorem xgboost_f32_exact b tf :
+  (forall c r z, tf_cat tf = Some c -> In r (f_rows c) -> In z r -> (Z.abs z <= 2 ^ 24)%Z) ->
+  to_xgboost_input_f32 b tf = to_xgboost_input tf.
+Proof.
+  intros H. rewrite to_xgboost_input_gen_neg. unfold to_xgboost_input_f32, to_xgboost_input_gen.
+  destruct (tf_cat tf) as [c|] eqn:E; [|reflexivity].
+  simpl. rewrite cat_block_f32_exact; [reflexivity|].
+  intros r z Ir Iz. exact (H c r z eq_refl Ir Iz).
+Qed.
+
 (* ------------------------------------------------------------------ the dictionary view *)
 Lemma stype_eqb_eq a b : stype_eqb a b = true <-> a = b.
 Proof. destruct a, b; simpl; split; intros H; try reflexivity; try discriminate. Qed.
